@@ -118,7 +118,7 @@ static void check_topology(int g, unsigned h, unsigned w, unsigned nregions, uns
 	for(lp_id_t from = 0; from < regions; ++from) {
 		snprintf(ctx, sizeof ctx, "%s h=%u w=%u regions=%llu links=0x%x from=%llu:", gname(g), h, w, (unsigned long long)regions,
 		    linkmask, (unsigned long long)from);
-		sx_evals++;
+		sx_evals++, sx_tick();
 		int any_fixed = 0;
 		for(int d = 0; d < DIRECTION_RANDOM; ++d) {
 			lp_id_t r = GetReceiver(from, t, d);
